@@ -154,10 +154,9 @@ func cmdCheck(args []string) int {
 		quickSec, totalSec = 10, 120
 	}
 	cr := &checkRun{prop: p, tier: *tier, seed: seed, t0: time.Now(), byBackend: map[string]int{}, assumptions: map[string]bool{}, knownHit: map[string]string{}}
-	pats := p.Patterns
-	if len(pats) == 0 {
-		pats = []string{"./..."}
-	}
+	// always the whole module: the contract set (shared externs, callee contracts) must not depend on which packages a
+	// check happens to load - a contract file that is not loaded silently turns its functions into unknown calls
+	pats := []string{"./..."}
 	prog, err := LoadProgram(repoDir, pats)
 	if err != nil {
 		fmt.Println("ERROR: cannot load /repo with -tags=verif:", err)
@@ -300,6 +299,19 @@ func (cr *checkRun) knownFindingFor(name string) *KnownFinding {
 		}
 	}
 	return nil
+}
+
+// foreignFinding: the obligation belongs to an open known finding of ANOTHER property (the same function is a unit of
+// several checks); it is that property's business and is left out here.
+func (cr *checkRun) foreignFinding(name string) bool {
+	for _, kf := range loadKnownFindings() {
+		if kf.Status == "open" && kf.Property != cr.prop.ID && kf.Match != "" {
+			if ok, _ := regexp.MatchString(kf.Match, name); ok {
+				return true
+			}
+		}
+	}
+	return false
 }
 
 func (cr *checkRun) handleFailure(full string, rep *FuncReport, o *Oblig) {
